@@ -688,8 +688,77 @@ func (s *linst) Check(res *vrt.Result) []vrt.Violation {
 	return vs
 }
 
+// slowinst: the subscription store's SaveOffset is slow (2 s of virtual time). A backlog of
+// two events is replayed, then a live event is published, then the bus is restarted.
+type slowSave struct {
+	*eventbus.MemoryStore
+	rec *h.Rec
+}
+
+func (s slowSave) SaveOffset(ctx context.Context, id string, o eventbus.Offset) error {
+	vrt.Sleep(2 * time.Second)
+	err := s.MemoryStore.SaveOffset(ctx, id, o)
+	s.rec.Add("save", 0, 0, string(o))
+	return err
+}
+
+type slowinst struct {
+	rec    h.Rec
+	status string
+}
+
+func (s *slowinst) Body() {
+	ms := eventbus.NewMemoryStore()
+	pre := eventbus.New(eventbus.WithStore(ms))
+	eventbus.Publish(pre, A{N: 1})
+	eventbus.Publish(pre, A{N: 2})
+	sr := slowSave{ms, &s.rec}
+	bus := eventbus.New(eventbus.WithStore(ms), eventbus.WithSubscriptionStore(sr))
+	eventbus.SubscribeWithReplay(bg, bus, "id1", func(e A) { s.rec.Add("d", e.N, 1, "") })
+	eventbus.Publish(bus, A{N: 3})
+	vrt.Join()
+	bus2 := eventbus.New(eventbus.WithStore(ms), eventbus.WithSubscriptionStore(sr))
+	eventbus.SubscribeWithReplay(bg, bus2, "id1", func(e A) { s.rec.Add("d", e.N, 2, "") })
+	vrt.Join()
+}
+
+func (s *slowinst) Trace() string   { return s.rec.String() }
+func (s *slowinst) Outcome() string { return s.status + " " + s.rec.String() }
+func (s *slowinst) Check(res *vrt.Result) []vrt.Violation {
+	s.status = res.Status.String()
+	name := "slow SaveOffset: backlog of two, one live event, restart"
+	vs := vrt.StatusViolations(name, res)
+	if res.Status != vrt.StatusOK {
+		return vs
+	}
+	last, back := "", false
+	cnt := map[int]int{}
+	for _, e := range s.rec.Events() {
+		switch e.K {
+		case "save":
+			if e.S < last {
+				back = true
+			}
+			last = e.S
+		case "d":
+			cnt[e.A]++
+		}
+	}
+	if back {
+		vs = append(vs, vrt.Violation{Kind: "offset-backwards", Sig: "slow subscription store: the saved offset moved backwards with a single publisher and no fault", Detail: name + "\n" + s.rec.String()})
+	}
+	for n := 1; n <= 3; n++ {
+		if cnt[n] != 1 {
+			vs = append(vs, vrt.Violation{Kind: "delivery", Sig: "slow subscription store: an event was not delivered exactly once across a restart with a single publisher and no fault", Detail: fmt.Sprintf("%s\nevent %d delivered %d times\n%s", name, n, cnt[n], s.rec.String())})
+			break
+		}
+	}
+	return vs
+}
+
 func schedScenarios(thorough bool) []vrt.Scenario {
 	l := []vrt.Scenario{
+		{Name: "slow-saveoffset-backlog-live-restart", New: func() vrt.Instance { return &slowinst{} }},
 		{Name: "live-sub-2-publishers", New: func() vrt.Instance { return &linst{} }},
 		{Name: "live-sequential-sub-2-publishers", New: func() vrt.Instance { return &linst{seq: true} }},
 		{Name: "swr-vs-1-publish", New: func() vrt.Instance { return &sinst{pubs: 1} }},
